@@ -146,6 +146,19 @@ def menu():
         c('pbgen', of + ' peb pyramid 1')
         c('pbgen', of + ' php glrd 3 2 2')
         c('pbgen', of + ' kcolor 2 gnp 4 .5')
+    # a random component AFTER a modifier of an earlier graph argument, all
+    # built while the command line is parsed
+    c('cnfgen', 'iso gnp 8 .5 splitedges 2 -e gnp 10 .5')
+    c('cnfgen', 'iso gnm 8 12 addedges 2 -e gnm 8 14 plantclique 3')
+    c('cnfgen', 'subgraph -G gnm 8 12 splitedges 1 -H gnp 4 .5')
+    c('cnfgen', 'kcolor 3 gnp 8 .5 splitedges 2 -T xorcomp glrp 30 10 .5')
+    c('pbgen', 'iso gnp 6 .5 splitedges 2 -e gnp 7 .5')
+    # every spelling of the seed option argparse accepts
+    for sp in ('-S {S}', '-S{S}', '--seed={S}', '--see {S}', '-qS{S}', '-vS {S}', '-q -S {S}'):
+        c('cnfgen', '{SEED-SPELLED-INSIDE} ' + sp + ' kcolor 3 gnp 9 .5')
+        c('cnfgen', '{SEED-SPELLED-INSIDE} ' + sp + ' randkcnf 3 8 12 -T shuffle')
+    for sp in ('-S {S}', '-qS{S}', '--seed={S}'):
+        c('pbgen', '{SEED-SPELLED-INSIDE} ' + sp + ' matching gnp 8 .5')
     c('cnfgen', 'php 6 5 3')
     c('cnfgen', 'ec gnd 8 4')
     c('cnfgen', 'ec torus 3 3')
@@ -235,6 +248,9 @@ def file_menu():
 
 
 def argv_with_seed(tool, argv, seed):
+    if argv and argv[0] == '{SEED-SPELLED-INSIDE}':
+        # the menu entry spells the seed option itself ({S} = the value)
+        return [x.replace('{S}', str(seed)) for x in argv[1:]]
     if tool == 'cnfshuffle':
         return ['--seed', str(seed)] + list(argv)
     return ['--seed', str(seed)] + list(argv)
